@@ -60,6 +60,7 @@ fn base(rng: &mut Rng, b: u64) -> ConnScenario {
         wplan: vec![],
         cap_ns: secs(120),
         prelude: vec![],
+        growth: None,
     }
 }
 
@@ -248,6 +249,18 @@ fn generate(rng: &mut Rng, index: u64) -> ConnScenario {
             sc.client.cuts.push(Cut { at: rng.range(g.start, g.end - 1), gate: if rng.chance(1, 2) { Gate::Now } else { Gate::Delay { ns: ms(1) } }, spurious: rng.below(3) as u8 });
         }
     }
+    // a history of connections that differ only in what the client chooses: afterwards the process holds no more memory than before
+    if rng.chance(1, 25) {
+        let mut vary: Vec<String> = ["host", "name", "uuid", "locale", "brand", "addr"].iter().filter(|_| rng.chance(2, 3)).map(|s| s.to_string()).collect();
+        if vary.is_empty() {
+            vary.push("host".into());
+        }
+        sc.growth = Some(crate::conn::Growth { per_round: 3 + rng.below(6) as u32, host_len: *rng.pick(&[0u32, 40, 200, 240]), vary });
+        if rng.chance(1, 2) {
+            sc.services.filter_hostname = Some((*rng.pick(&["^.*$", "example\\.org$", "^nomatch$"])).to_string());
+        }
+    }
+
     sc
 }
 
@@ -364,6 +377,86 @@ pub fn check(sc: &ConnScenario, out: &ConnOutcome, rep: &mut RunReport) {
     }
 }
 
+/// The scenario with the `n`-th set of client-chosen values (unique per scenario seed, so that nothing an earlier
+/// evaluation of this process left behind is hit again).
+fn varied(sc: &ConnScenario, g: &crate::conn::Growth, n: u32) -> ConnScenario {
+    let mut s = sc.clone();
+    s.growth = None;
+    s.prelude.clear();
+    let tag = format!("{:x}-{n:x}", sc.seed & 0xffff_ffff);
+    for v in &g.vary {
+        match v.as_str() {
+            "host" => s.client.host = format!("h{tag}{}.example.org", "x".repeat(g.host_len as usize)),
+            "name" => s.client.name = format!("P{tag}").chars().take(16).collect(),
+            "uuid" => s.client.uuid = format!("{:032x}", (u128::from(sc.seed) << 32) | u128::from(n)),
+            "locale" => s.client.locale = format!("l{tag}").chars().take(16).collect(),
+            "brand" => {
+                for x in s.client.extras.iter_mut() {
+                    if let crate::client::Body::Raw { bytes } = &mut x.body {
+                        bytes.extend_from_slice(tag.as_bytes());
+                    }
+                }
+            }
+            "addr" => s.cfg.client_addr = format!("198.51.{}.{}:{}", (sc.seed >> 8) & 0xff, n & 0xff, 40000 + (n & 0xfff)),
+            _ => {}
+        }
+    }
+    s
+}
+
+/// Three rounds of `per_round` connections each; the live heap of this thread is read between rounds, at points where
+/// every connection of the round is over and everything the harness built for it has been dropped.
+fn run_growth(sc: &ConnScenario, g: &crate::conn::Growth) -> RunReport {
+    if g.per_round == 0 || g.per_round > 64 || g.host_len > 4000 {
+        return RunReport::default();
+    }
+    let mut rep = RunReport::default();
+    // the filter chain (real `OptionFilterAdapter`s) and the localization adapter live as long as the process does
+    let _persist = crate::conn::persist_adapters(&sc.services);
+    let mut marks = [0isize; 3];
+    let mut n = 0u32;
+    let mut panicked = false;
+    for (r, mark) in marks.iter_mut().enumerate() {
+        for _ in 0..g.per_round {
+            let s = varied(sc, g, n);
+            n += 1;
+            let out = run_conn(&s);
+            if r == 0 && rep.runs == 0 {
+                rep = base_report(&out);
+                rep.faults.insert("history_of_connections_with_fresh_client_values".into(), 0);
+                rep.faults.insert("real_option_filter_with_hostname".into(), 0);
+            } else {
+                rep.runs += 1;
+                rep.sim_ns += out.end_ns;
+            }
+            panicked |= !out.panics.is_empty();
+        }
+        *mark = crate::alloc::live_bytes();
+    }
+    rep.nontrivial = true;
+    *rep.faults.get_mut("history_of_connections_with_fresh_client_values").unwrap() += 1;
+    if sc.services.filter_hostname.is_some() {
+        *rep.faults.get_mut("real_option_filter_with_hostname").unwrap() += 1;
+    }
+    let mut h = crate::rng::Fnv(rep.trace_hash);
+    h.write_str(&format!("growth {:?}", g));
+    rep.trace_hash = h.0;
+    if panicked {
+        // (the panic itself is reported by the single-connection runs; the messages kept for it are harness memory)
+        return rep;
+    }
+    let (d1, d2) = (marks[1] - marks[0], marks[2] - marks[1]);
+    let slack = 16 * g.per_round as isize;
+    *rep.probes.entry(if d1 == 0 && d2 == 0 { "live_heap_unchanged_between_rounds" } else if d1.abs() <= slack && d2.abs() <= slack { "live_heap_changed_within_slack" } else { "live_heap_changed_in_one_round_only_or_shrank" }.into()).or_insert(0) += 1;
+    if d1 > slack && d2 > slack {
+        rep.violate(
+            "memory_is_released_after_the_connections",
+            format!("after {0} more connections that differ only in {1:?} the process holds {d1} bytes more, after another {0} again {d2} bytes more", g.per_round, g.vary),
+        );
+    }
+    rep
+}
+
 impl Check for C04 {
     type Sc = ConnScenario;
     fn id(&self) -> &'static str {
@@ -396,6 +489,9 @@ impl Check for C04 {
     fn execute(&self, sc: &ConnScenario) -> RunReport {
         if !conn_domain_ok(sc) || sc.client.script.is_some() {
             return RunReport::default();
+        }
+        if let Some(g) = &sc.growth {
+            return run_growth(sc, g);
         }
         let out = run_conn(sc);
         let mut rep = base_report(&out);
